@@ -5,6 +5,7 @@ import (
 	"fmt"
 	"io"
 	"os"
+	"strings"
 	"time"
 
 	"github.com/schollz/progressbar/v3"
@@ -334,7 +335,13 @@ You can provide input either as a file (as the first argument) or by piping logs
 				fmt.Fprintf(os.Stderr, "Error reading key file: %v\n", err)
 				os.Exit(1)
 			}
-			decodedBytes, err := base64.StdEncoding.DecodeString(valueToDecrypt)
+			if strings.ContainsAny(valueToDecrypt, "\r\n") {
+				fmt.Fprintln(os.Stderr, "Error decoding base64 value: line breaks are not part of a redacted value")
+				os.Exit(1)
+			}
+			// strict: refuse a text whose last character carries stray bits, so that every
+			// ciphertext has exactly one text form
+			decodedBytes, err := base64.StdEncoding.Strict().DecodeString(valueToDecrypt)
 			if err != nil {
 				fmt.Fprintf(os.Stderr, "Error decoding base64 value: %v\n", err)
 				os.Exit(1)
